@@ -438,6 +438,11 @@ def gen_program(seed, family=None, tight=True, T=None, on_grid=True, with_main=T
                     b.add({'op': 'AddMarket', 'business': other['bus'], 'market': e['good']})
     else:
         raise core.HarnessError('unknown family ' + family)
+    if S['swarm'].random() < 0.06:
+        # a diagnostic dump somewhere in the construction history (public API; regenerates full codes)
+        first_sector = [i for i, o in enumerate(b.ops) if o['op'] in ('Household', 'HouseholdWithExpectations')]
+        if first_sector:
+            b.ops.insert(S['swarm'].randint(first_sector[0] + 1, len(b.ops)), {'op': 'LogInfo', 'model': m})
     knobs_ops(b, S['knobs'], m, T, tight=tight)
     if with_main:
         mo = {'op': 'main', 'model': m}
